@@ -67,7 +67,11 @@ func (f *flatten) Iterate(ctx context.Context, onFields OnFields, onRow OnFlatRo
 			anyNonConstantValueFound := false
 			for i, field := range fields {
 				val, found := vals[i].ValueAtTime(ts, field.Expr, resolution)
-				if found && !field.Expr.IsConstant() {
+				if found && !field.Expr.IsConstant() && field.Name != HavingFieldName {
+					// The synthetic HAVING column does not make a row: a predicate that
+					// holds for unset values (x = 0, x < 3) evaluates to true in periods
+					// without any data, which would otherwise be emitted as rows of
+					// zeros that the query without HAVING does not have.
 					anyNonConstantValueFound = true
 				}
 				row.Values[i] = val
